@@ -1,7 +1,7 @@
 (* Correspondence cases for C24: the real Go helpers against the translated definitions and against exact arithmetic. *)
 From Coq Require Import List ZArith Bool.
 Require Import MTX.Lib.IntWrap MTX.Model.C24_MulDiv.
-Require Export MTX.Model.C24_Inline.
+Require Export MTX.Model.C24_Inline MTX.Model.C24_TsOut.
 Require Export MTXGen.C24_Sites MTXGen.C24_Inline.
 Import ListNotations.
 Local Open Scope Z_scope.
@@ -12,7 +12,10 @@ Inductive case :=
 | KFrom (f : Z -> Z -> Z) (d rate obs : Z)           (* ns -> ticks *)
 | KInl (s : inline_site) (a b c obs : Z)             (* an inline a * b / c site, evaluated by its enclosing real function
                                                         on the operands a b c, yielded obs *)
-| KFact (lo hi obs_lo obs_hi : Z).                   (* a library range fact [lo, hi] used by an inline site, and the extreme
+| KFact (lo hi obs_lo obs_hi : Z)
+| KTs (k : ts_branch) (rate pts i obs : Z).          (* the real mpegts.FromStream, branch k on a format of clock rate `rate`:
+                                                        the PES header written for frame i of a unit stamped pts carries obs
+                                                        (raw 33 bits, parsed from the produced transport stream) *)                   (* a library range fact [lo, hi] used by an inline site, and the extreme
                                                         values observed over the producer's whole input domain *)
 
 Definition mismatch (c : case) : bool :=
@@ -22,6 +25,7 @@ Definition mismatch (c : case) : bool :=
   | KFrom f d r obs => negb (f d r =? obs)
   | KInl s a b c obs => negb (is_f s a b c =? obs)
   | KFact _ _ _ _ => false
+  | KTs k rate pts i obs => negb (pes33 (ts_written protocols_mpegts__multiplyAndDivide k rate pts i) =? obs)
   end.
 
 Definition ok_rate (r : Z) : bool := (1 <=? r) && (r <=? 4294967296).
@@ -44,4 +48,6 @@ Definition spec_fail (c : case) : bool :=
       negb (c =? 0) && in_rngb e (is_res s) && negb (obs =? e)
   (* range fact: the real producer stays inside the range the theorem assumes *)
   | KFact lo hi obs_lo obs_hi => (obs_lo <? lo) || (hi <? obs_hi) || (obs_hi <? obs_lo)
+  (* written timestamp: the exact conversion to 90 kHz of the POSITION of that frame (unit timestamp + i frame lengths) *)
+  | KTs k rate pts i obs => ts_judged rate pts i && negb (ts_obs_ok k rate pts i obs)
   end.
